@@ -12,8 +12,37 @@ FAR = 4102444800000  # 2100-01-01 in ms: a deadline that never passes during a r
 def hexs(argv):
     return " ".join(hx(a) for a in argv)
 
-def rand_write(rng):
-    """one (mostly valid) write command; no relative expiry, no randomised command (known findings)"""
+# Relative expiries (logged in their absolute form since fix-absolute-expiry): periods far longer than all
+# the clock advances of one script together, so that no deadline falls due between a write and a restore.
+REL_S = ["4000", "86400", "100000", "+7200"]
+REL_MS = ["5000000", "86400000", "4000123"]
+ADVANCES = [1, 250, 8000, 61000]     # at most ~30 per script: < 2 000 000 ms in all
+
+def rand_rel(rng):
+    """one write command with a relative expiry, every spelling the rewrite knows, plus a few it must leave alone"""
+    k = rng.choice(KEYS); v = rng.choice(VALS)
+    s = rng.choice(REL_S); ms = rng.choice(REL_MS)
+    opt = rng.choice(["NX", "XX", "GT", "LT", "nx", "gt"])
+    choices = [
+        ["SET", k, v, "EX", s], ["SET", k, v, "PX", ms], ["set", k, v, "ex", s], ["SET", k, v, "px", ms, "NX"],
+        ["SET", k, v, "XX", "EX", s], ["SET", k, v, "GET", "PX", ms], ["SET", k, v, "NX", "GET", "EX", s],
+        ["EXPIRE", k, s], ["EXPIRE", k, s, opt], ["expire", k, s], ["PEXPIRE", k, ms], ["PEXPIRE", k, ms, opt],
+        ["GETEX", k, "EX", s], ["GETEX", k, "PX", ms], ["getex", k, "px", ms], ["GETEX", k, "PERSIST"], ["GETEX", k],
+        # refused by the handler, or left as they are by the rewrite
+        ["SET", k, v, "EX", s, "PX", ms], ["SET", k, v, "EX", "soon"], ["EXPIRE", k, s, "ZZ"], ["EXPIRE", k, "soon"],
+        ["GETEX", k, "EX", "soon"], ["SET", k, v, "EX"],
+    ]
+    return rng.choice(choices)
+
+def advance(s, rng):
+    ms = rng.choice(ADVANCES)
+    s.raw("A %d" % ms, ["advance", ms])
+
+def rand_write(rng, rel=0.12):
+    """one (mostly valid) write command; no randomised command (known finding); with probability rel one
+    with a relative expiry"""
+    if rel and rng.random() < rel:
+        return rand_rel(rng)
     k = rng.choice(KEYS); k2 = rng.choice(KEYS); v = rng.choice(VALS)
     n = str(rng.choice([1, 2, -1, 5, 100]))
     choices = [
@@ -67,6 +96,8 @@ def workload(rng, sid, ncmds, policy=None, images=True, torn=2, rewrite=0.0):
         c = rng.choice(conns)
         if rng.random() < 0.08:
             s.raw("D %d %d" % (c, rng.choice(DBS)), ["select", c])
+        if rng.random() < 0.15:
+            advance(s, rng)
         argv = rand_write(rng) if rng.random() < 0.85 else rand_other(rng)
         add_cmd(s, c, argv)
         if i in torn_at and images:
@@ -74,6 +105,8 @@ def workload(rng, sid, ncmds, policy=None, images=True, torn=2, rewrite=0.0):
         if rewrite and rng.random() < rewrite:
             s.raw("RW 1", ["rewrite"])
     s.raw("G", ["digest"])
+    if rng.random() < 0.7:
+        advance(s, rng)
     s.raw("Q", ["shutdown"]); s.raw("O", ["open"]); s.raw("G", ["digest"])
     return s
 
@@ -84,10 +117,14 @@ def chain(rng, sid, lives, ncmds, rewrite=0.0):
     for life in range(lives):
         conns = setup_conns(s, rng)
         for i in range(ncmds):
+            if rng.random() < 0.15:
+                advance(s, rng)
             add_cmd(s, rng.choice(conns), rand_write(rng) if rng.random() < 0.9 else rand_other(rng))
             if rewrite and rng.random() < rewrite:
                 s.raw("RW 1", ["rewrite"])
         s.raw("G", ["digest"])
+        if rng.random() < 0.6:
+            advance(s, rng)
         how = rng.choice(["kill", "kill_cut", "clean"])
         if how == "clean":
             s.raw("Q", ["shutdown"])
@@ -101,7 +138,8 @@ def chain(rng, sid, lives, ncmds, rewrite=0.0):
 
 EXH = [["SET", "a", "x"], ["APPEND", "a", "y"], ["INCR", "n"], ["RPUSH", "l", "p", "q"], ["LPOP", "l"],
        ["HSET", "h", "f", "1"], ["SADD", "s", "m"], ["ZADD", "z", "1.5", "m"], ["DEL", "a", "l"],
-       ["SET", "a", "v", "PXAT", str(FAR)], ["INCR", "l"], ["GET", "a"]]
+       ["SET", "a", "v", "PXAT", str(FAR)], ["INCR", "l"], ["GET", "a"],
+       ["SET", "a", "w", "EX", "5000"], ["EXPIRE", "a", "86400", "NX"], ["GETEX", "a", "PX", "7200000"]]
 EXH_PLACES = [(0, 0), (0, 1), (1, 0), (1, 12), (2, 10)]   # (connection, database)
 
 def exhaustive(depth, prefix):
@@ -120,7 +158,8 @@ def exhaustive(depth, prefix):
                 if cur.get(conn, 0) != db:
                     s.raw("D %d %d" % (conn, db), ["select", conn, db]); cur[conn] = db
                 add_cmd(s, conn, EXH[ci])
-            s.raw("TORN", ["torn"]); s.raw("G", ["digest"]); s.raw("Q", ["shutdown"]); s.raw("O", ["open"]); s.raw("G", ["digest"])
+            s.raw("TORN", ["torn"]); s.raw("G", ["digest"]); s.raw("A 8000", ["advance", 8000])
+            s.raw("Q", ["shutdown"]); s.raw("O", ["open"]); s.raw("G", ["digest"])
             out.append(s)
     return out
 
